@@ -26,6 +26,12 @@ def run(ctx, replay):
     # repair lets it wait for ever (every request dropped at the stale mark)
     ctx.model_check("MCFlushChecker", "MCFlushChecker_live.cfg", timeout=900)
     ctx.model_check("MCFlushChecker", "MCFlushChecker_dev_marklate_live.cfg", expect="violation", timeout=900)
+    # M, unbounded in the number of steps: an inductive invariant of the repaired order (6 requesters) discharged by Apalache
+    ctx.apalache("FlushCheckerInd", "Init", "IndInv", 0)
+    ctx.apalache("FlushCheckerInd", "IndInit", "IndInv", 1)
+    ctx.apalache("FlushCheckerInd", "IndInit", "Safety", 0)
+    ctx.apalache("FlushCheckerInd", "IndInit", "NotVacuous", 0, expect="violation")
+    ctx.apalache("FlushCheckerInd", "IndInit", "IndInv", 1, cinit="CInitLate", expect="violation")
     tr = os.path.join(ctx.scratch, "flushchk.ndjson")
     nh, steps = (200, 16) if thorough else (30, 12)
     summ, rc, _ = ctx.run_vdrive(["flushchk", "--seed", ctx.seed, "--histories", nh, "--steps", steps, "--out", tr], timeout=3000)
